@@ -111,3 +111,39 @@ Example C05_ex_writer :
     [[5;0;0;0; 1;2;3;4;5]; [9;0;0;0; 6;7;8;9;10;11;12;13]; [14; 0;0;0;0]] /\
   map wp_id (ws_hist s ++ b_pages (ws_buf s)) = [7; 0; 0].
 Proof. vm_compute. repeat split. Qed.
+
+(* ---- what a flush publishes (ghost field wp_disk of the model: the payload last written to the file for a page). For
+   EVERY run of Write / Next / Flush calls with any flush outcomes, followed by a Next or Flush call whose flush
+   succeeds: the reader's parser (parse_from, the function of C05_framing_round_trip), run on the page payloads AS THEY
+   WERE WRITTEN TO THE FILE - released pages and the buffer pages up to the page of the open event's header - from the
+   position behind what the tail page held before, returns exactly the events completed so far: none missing, none
+   twice, none truncated, whatever was flushed earlier, whichever flushes failed in between, however the events
+   straddle pages. ---- *)
+Theorem C05_flush_publishes_the_completed_events : forall PS, (hdr_len <= payload PS)%nat ->
+  forall pages tail endId root ops o,
+  match tail with Some t => (length (wp_data t) <= payload PS)%nat /\ wp_dirty t = false /\ wp_disk t = Some (wp_data t) | None => True end ->
+  let base := match tail with Some t => wp_data t | None => [] end in
+  let '(s1, rs) := w_run PS (w_init PS pages tail endId root) ops in
+  let '(s2, r) := w_step PS s1 o in
+  let '(done, cur) := spec_step (spec_run ([], []) ops rs) o r in
+  match o, r with
+  | WNext _, WOk (Some (FDone _ _ _, _)) | WFlush _, WOk (Some (FDone _ _ _, _)) =>
+      Forall (fun e => Z.of_nat (length e) < 256 ^ Z.of_nat hdr_len) done ->
+      exists i off, b_hdr (ws_buf s2) = Some (i, off) /\
+        parse_from (payload PS) (flat (payload PS) (map disk_data (cores (ws_hist s2 ++ firstn (S i) (b_pages (ws_buf s2))))))
+                   (length base) (length done) = Some done
+  | _, _ => True
+  end.
+Proof. exact flush_publishes_events. Qed.
+Print Assumptions C05_flush_publishes_the_completed_events.
+
+(* non-vacuity: the run of C05_ex_writer ends with a Next; a Flush that succeeds follows: three pages in the file *)
+Example C05_ex_flush_publishes :
+  let ops := [WWrite [1;2] FFailEarly; WWrite [3;4;5] FFailEarly; WNext FFailEarly; WWrite [6;7;8] FFailEarly;
+              WFlush (FFailLate [7]); WFlush (FOk [7; 9]); WWrite [9;10;11;12;13;14] FFailEarly; WNext FFailEarly] in
+  let '(s1, rs) := w_run 40 (w_init 40 5 None 0 {| q_head := None; q_tail := (0, O, 0); q_inuse := 0 |}) ops in
+  let '(s2, r) := w_step 40 s1 (WFlush (FOk [11; 12])) in
+  (exists imgs p a cb, r = WOk (Some (FDone imgs p a, cb)) /\ map (fun im => fst (fst (fst (fst (fst im))))) imgs = [7; 11; 12]) /\
+  map disk_data (cores (ws_hist s2 ++ firstn 1 (b_pages (ws_buf s2)))) = [[5;0;0;0; 1;2;3;4;5]; [9;0;0;0; 6;7;8;9;10;11;12;13]; [14; 0;0;0;0]] /\
+  q_tail (ws_root s2) = (12, 29%nat, 2).
+Proof. vm_compute. split; [repeat eexists|split; reflexivity]. Qed.
